@@ -25,6 +25,7 @@ func runC11(c *Ctx) {
 	c.debugErrLost()
 	c.debugLoopTables()
 	c.debugRetain()
+	c.debugCloseGo()
 	n := c.checkMapRanges("map-order", nil, c11MapExceptions)
 	L.Floor("map-order", 5, "14 range-over-map sites were confirmed by hand on the pinned tree (13 after the Pssm fix); the floor leaves room for legitimate rewrites (floor = half of the instances on the pinned tree: a clean-up may merge instances, a rule that sees nothing must still fail)")
 	_ = n
